@@ -4,7 +4,7 @@
 # patch, fails with it, and the repository's own suite still passes with it.
 # Runs under a global lock so that confirmations do not pile up on the machine.
 ID=$1; SETUP=$2; RUN=$3
-W=/tmp/seed-$ID; O=/tmp/seed-$ID-out
+P=${SEEDPFX:-seed}; W=/tmp/$P-$ID; O=/tmp/$P-$ID-out
 export GOPROXY=off GOSUMDB=off GOTOOLCHAIN=local
 exec 9>/var/tmp/vwork/confirm.lock; flock 9
 cd $W || exit 1
